@@ -22,23 +22,23 @@ import (
 // kind "ro": read-only random access (see coq/theories/RunRo.v for the wire format).
 // front: 0 blockstore.NewReadOnly / OpenReadOnly, 1 storage.OpenReadable
 
-type qOpts struct {
+type c07Opts struct {
 	whole, storeID, zeof bool
 	maxH, maxS, maxCid   uint64
 	codec                uint64
 }
 
-var defaultQOpts = qOpts{maxH: 32 << 20, maxS: 8 << 20, maxCid: 2048, codec: 0x0401}
+var c07DefaultOpts = c07Opts{maxH: 32 << 20, maxS: 8 << 20, maxCid: 2048, codec: 0x0401}
 
-func (o qOpts) val() Val {
+func (o c07Opts) val() Val {
 	return VL{vbool(o.whole), vbool(o.storeID), vbool(o.zeof), VN(o.maxH), VN(o.maxS), VN(o.maxCid), VN(o.codec)}
 }
-func qOptsFromVal(v Val) qOpts {
+func c07OptsFromVal(v Val) c07Opts {
 	l := v.(VL)
 	n := func(i int) uint64 { return uint64(l[i].(VN)) }
-	return qOpts{n(0) != 0, n(1) != 0, n(2) != 0, n(3), n(4), n(5), n(6)}
+	return c07Opts{n(0) != 0, n(1) != 0, n(2) != 0, n(3), n(4), n(5), n(6)}
 }
-func (o qOpts) v2() []carv2.Option {
+func (o c07Opts) v2() []carv2.Option {
 	return []carv2.Option{
 		carv2.UseWholeCIDs(o.whole), carv2.StoreIdentityCIDs(o.storeID), carv2.ZeroLengthSectionAsEOF(o.zeof),
 		carv2.MaxAllowedHeaderSize(o.maxH), carv2.MaxAllowedSectionSize(o.maxS),
@@ -46,16 +46,16 @@ func (o qOpts) v2() []carv2.Option {
 	}
 }
 
-// readerAtOnly hides every optional interface of the backing.
-type readerAtOnly struct{ r io.ReaderAt }
+// c07ReaderAtOnly hides every optional interface of the backing.
+type c07ReaderAtOnly struct{ r io.ReaderAt }
 
-func (p readerAtOnly) ReadAt(b []byte, off int64) (int, error) { return p.r.ReadAt(b, off) }
+func (p c07ReaderAtOnly) ReadAt(b []byte, off int64) (int, error) { return p.r.ReadAt(b, off) }
 
 // backing kinds: 0 *bytes.Reader, 1 ReaderAt only, 2 *os.File, 3 path through OpenReadOnly (mmap; blockstore only)
-func roBacking(c *Ctx, kind int, file []byte) (io.ReaderAt, string, func()) {
+func c07Backing(c *Ctx, kind int, file []byte) (io.ReaderAt, string, func()) {
 	switch kind {
 	case 1:
-		return readerAtOnly{bytes.NewReader(file)}, "", func() {}
+		return c07ReaderAtOnly{bytes.NewReader(file)}, "", func() {}
 	case 2, 3:
 		p := filepath.Join(c.Work, "ro.car")
 		if err := os.WriteFile(p, file, 0o644); err != nil {
@@ -74,7 +74,7 @@ func roBacking(c *Ctx, kind int, file []byte) (io.ReaderAt, string, func()) {
 	}
 }
 
-func keyFromVal(q Val) (cid.Cid, []byte) {
+func c07KeyFromVal(q Val) (cid.Cid, []byte) {
 	kb := []byte(q.(VL)[1].(VB))
 	c, err := cid.Cast(kb)
 	if err != nil {
@@ -83,19 +83,19 @@ func keyFromVal(q Val) (cid.Cid, []byte) {
 	return c, kb
 }
 
-// runRoImpl opens the archive and answers the queries with the real library.
-func runRoImpl(c *Ctx, front uint64, o qOpts, file []byte, supplied Val, queries VL, backing int) Val {
+// c07RunImpl opens the archive and answers the queries with the real library.
+func c07RunImpl(c *Ctx, front uint64, o c07Opts, file []byte, supplied Val, queries VL, backing int) Val {
 	ctx := context.Background()
 	var sidx index.Index
 	if l, ok := supplied.(VL); ok && len(l) == 3 {
-		g := qOptsFromVal(l[1])
+		g := c07OptsFromVal(l[1])
 		var err error
 		sidx, err = carv2.GenerateIndex(bytes.NewReader([]byte(l[2].(VB))), g.v2()...)
 		if err != nil {
 			return VL{VT("generr"), verr(err)}
 		}
 	}
-	ra, path, done := roBacking(c, backing, file)
+	ra, path, done := c07Backing(c, backing, file)
 	defer done()
 	out := VL{}
 	if front == 0 {
@@ -116,7 +116,7 @@ func runRoImpl(c *Ctx, front uint64, o qOpts, file []byte, supplied Val, queries
 		for _, q := range queries {
 			switch q.(VL)[0].(VT) {
 			case "has":
-				k, _ := keyFromVal(q)
+				k, _ := c07KeyFromVal(q)
 				b, err := bs.Has(ctx, k)
 				if err != nil {
 					out = append(out, outErr(err))
@@ -124,7 +124,7 @@ func runRoImpl(c *Ctx, front uint64, o qOpts, file []byte, supplied Val, queries
 					out = append(out, VL{VT("bool"), vbool(b)})
 				}
 			case "get":
-				k, _ := keyFromVal(q)
+				k, _ := c07KeyFromVal(q)
 				b, err := bs.Get(ctx, k)
 				if err != nil {
 					out = append(out, outErr(err))
@@ -132,7 +132,7 @@ func runRoImpl(c *Ctx, front uint64, o qOpts, file []byte, supplied Val, queries
 					out = append(out, VL{VT("bytes"), VB(b.RawData())})
 				}
 			case "getsize":
-				k, _ := keyFromVal(q)
+				k, _ := c07KeyFromVal(q)
 				n, err := bs.GetSize(ctx, k)
 				if err != nil {
 					out = append(out, outErr(err))
@@ -180,7 +180,7 @@ func runRoImpl(c *Ctx, front uint64, o qOpts, file []byte, supplied Val, queries
 	for i, q := range queries {
 		switch q.(VL)[0].(VT) {
 		case "has":
-			_, kb := keyFromVal(q)
+			_, kb := c07KeyFromVal(q)
 			b, err := sc.Has(ctx, string(kb))
 			if err != nil {
 				out = append(out, outErr(err))
@@ -188,7 +188,7 @@ func runRoImpl(c *Ctx, front uint64, o qOpts, file []byte, supplied Val, queries
 				out = append(out, VL{VT("bool"), vbool(b)})
 			}
 		case "get":
-			_, kb := keyFromVal(q)
+			_, kb := c07KeyFromVal(q)
 			var data []byte
 			var err error
 			if i%2 == 0 {
@@ -217,22 +217,22 @@ func runRoImpl(c *Ctx, front uint64, o qOpts, file []byte, supplied Val, queries
 // ---- independent construction of index bytes (what index.WriteTo emits for an index generated
 // from the payload): used for embedded indexes so that a valid archive does not depend on the
 // library's own generator.
-type refRec struct {
+type c07RefRec struct {
 	code   uint64
 	digest []byte
 	off    uint64
 }
 
-func refRecords(roots []cid.Cid, blks []Blk, withID bool) []refRec {
+func c07RefRecords(roots []cid.Cid, blks []Blk, withID bool) []c07RefRec {
 	pos := uint64(len(refPayload(roots, nil)))
-	var out []refRec
+	var out []c07RefRec
 	for _, b := range blks {
 		dm, err := mh.Decode(b.Cid.Hash())
 		if err != nil {
 			panic(err)
 		}
 		if withID || dm.Code != mh.IDENTITY {
-			out = append(out, refRec{dm.Code, dm.Digest, pos})
+			out = append(out, c07RefRec{dm.Code, dm.Digest, pos})
 		}
 		sl := uint64(b.Cid.ByteLen() + len(b.Data))
 		pos += uint64(varint.UvarintSize(sl)) + sl
@@ -240,8 +240,8 @@ func refRecords(roots []cid.Cid, blks []Blk, withID bool) []refRec {
 	return out
 }
 
-func refMultiWidth(recs []refRec) []byte {
-	byW := map[int][]refRec{}
+func c07RefMultiWidth(recs []c07RefRec) []byte {
+	byW := map[int][]c07RefRec{}
 	for _, r := range recs {
 		byW[len(r.digest)] = append(byW[len(r.digest)], r)
 	}
@@ -265,14 +265,14 @@ func refMultiWidth(recs []refRec) []byte {
 	return buf.Bytes()
 }
 
-func refIndexBytes(codec uint64, recs []refRec) []byte {
+func c07RefIndexBytes(codec uint64, recs []c07RefRec) []byte {
 	var buf bytes.Buffer
 	buf.Write(varint.ToUvarint(codec))
 	if codec == 0x0400 {
-		buf.Write(refMultiWidth(recs))
+		buf.Write(c07RefMultiWidth(recs))
 		return buf.Bytes()
 	}
-	byC := map[uint64][]refRec{}
+	byC := map[uint64][]c07RefRec{}
 	for _, r := range recs {
 		byC[r.code] = append(byC[r.code], r)
 	}
@@ -284,13 +284,13 @@ func refIndexBytes(codec uint64, recs []refRec) []byte {
 	binary.Write(&buf, binary.LittleEndian, int32(len(cs)))
 	for _, k := range cs {
 		binary.Write(&buf, binary.LittleEndian, k)
-		buf.Write(refMultiWidth(byC[k]))
+		buf.Write(c07RefMultiWidth(byC[k]))
 	}
 	return buf.Bytes()
 }
 
-// v2File assembles a CARv2: pragma, header, data padding, payload, index padding, index bytes.
-func v2File(payload []byte, dpad, ipad uint64, idx []byte, fullyIndexed bool) []byte {
+// c07V2File assembles a CARv2: pragma, header, data padding, payload, index padding, index bytes.
+func c07V2File(payload []byte, dpad, ipad uint64, idx []byte, fullyIndexed bool) []byte {
 	var buf bytes.Buffer
 	buf.Write(carv2.Pragma)
 	h := carv2.NewHeader(uint64(len(payload))).WithDataPadding(dpad).WithIndexPadding(ipad)
@@ -307,7 +307,7 @@ func v2File(payload []byte, dpad, ipad uint64, idx []byte, fullyIndexed bool) []
 }
 
 // header-oracle entries for every header the open path can read in file (outer, inner payload)
-func roHdrTable(files ...[]byte) Val {
+func c07HdrTable(files ...[]byte) Val {
 	out := VL{}
 	for _, f := range files {
 		_, hdrs := scanTables(f)
@@ -319,6 +319,6 @@ func roHdrTable(files ...[]byte) Val {
 func init() {
 	registerReplay("ro", func(c *Ctx, in Val) Val {
 		l := in.(VL)
-		return runRoImpl(c, uint64(l[0].(VN)), qOptsFromVal(l[1]), []byte(l[2].(VB)), l[3], l[4].(VL), 0)
+		return c07RunImpl(c, uint64(l[0].(VN)), c07OptsFromVal(l[1]), []byte(l[2].(VB)), l[3], l[4].(VL), 0)
 	})
 }
